@@ -1,6 +1,7 @@
 package harness
 
 import (
+	"context"
 	"bytes"
 	"encoding/json"
 	"fmt"
@@ -26,6 +27,7 @@ type C10Scn struct {
 	Clock    int      `json:"clock_moves"`   // clock advances the scheduler may take
 	HooksLate bool    `json:"hooks_late,omitempty"`   // the hooks are assigned after Refresh, not before
 	ConLayout string  `json:"console_layout,omitempty"` // sync/async: a second reference to a Console appender with this layout
+	Shared   bool     `json:"shared_context,omitempty"` // every call of every task passes the same context object
 	Dyn      bool     `json:"dynamic_level,omitempty"` // sync: an application-defined logger whose level is set after Refresh (it enables everything while Refresh runs)
 	Overflow bool     `json:"overflow,omitempty"`  // async logger (Discard policy) driven into overflow first: records emitted afterwards still carry exactly their own call's hook results
 	RefLevel string   `json:"ref_level,omitempty"` // sync/async: the only reference carries a level of its own (what the appender accepts is not what the logger enables)
@@ -81,6 +83,9 @@ func (c10) Gen(rt *rapid.T, thorough bool) any {
 	s.ConLayout = rapid.SampledFrom([]string{"", "JSONLayout", "TextLayout"}).Draw(rt, "con_layout")
 	s.Rolling = rapid.IntRange(0, 3).Draw(rt, "rolling_ref") == 0
 	s.Overflow = rapid.IntRange(0, 9).Draw(rt, "overflow10") == 0
+	// s.Shared (one context object for all calls) is not generated: the per-call oracles below key
+	// their bookkeeping on the context value, a shared context needs oracles of its own (open gap, DESIGN 10.16)
+	s.Shared = false
 	s.Dyn = s.Mode == "sync" && rapid.IntRange(0, 3).Draw(rt, "dyn_level") == 0
 	if s.Dyn {
 		s.ConLayout, s.Rolling = "", false
@@ -235,6 +240,11 @@ func (c c10) Run(x *Exec, scn any) {
 			installHooks(s.TimeHook, s.StrHook, s.FldHook)
 		}
 	}
+	sharedKey := evKey{task: 77, seq: 0, ctxMode: 3}
+	if s.Shared {
+		emitSharedCtx = context.WithValue(context.Background(), ctxKey, sharedKey)
+		defer func() { emitSharedCtx = nil }()
+	}
 	type callRec struct {
 		sb             *Submitted
 		before, after  time.Time
@@ -286,8 +296,27 @@ func (c c10) Run(x *Exec, scn any) {
 		}
 	}
 	enabledN, disabledN := 0, 0
+	sharedEnabled := 0
 	hooks.mu.Lock()
 	defer hooks.mu.Unlock()
+	defer func() {
+		if !s.Shared {
+			return
+		}
+		for _, h := range []struct {
+			set  bool
+			n    int
+			what string
+		}{{s.TimeHook, hooks.timeCalls[sharedKey], "time-hook"}, {s.StrHook, hooks.strCalls[sharedKey], "context-string-hook"}, {s.FldHook, hooks.fldCalls[sharedKey], "context-fields-hook"}} {
+			want := sharedEnabled
+			if !h.set {
+				want = 0
+			}
+			if h.n != want {
+				o.violate("hook-count", "C10/"+h.what+"-invocations-with-a-shared-context", "all %d enabled calls of this run pass one shared context object: the %s ran %d times, expected %d", sharedEnabled, h.what, h.n, want)
+			}
+		}
+	}()
 	if len(hooks.foreign) > 0 {
 		o.violate("hook-foreign-context", "C10/hook-invoked-with-a-context-that-is-no-callers", "%d hook invocations received a context that belongs to no logging call of this run (first: %s)", len(hooks.foreign), hooks.foreign[0])
 	}
@@ -295,6 +324,9 @@ func (c c10) Run(x *Exec, scn any) {
 		for _, c := range calls[t] {
 			sb := c.sb
 			k := evKey{task: sb.Task, seq: sb.Seq, ctxMode: s.Ops[sb.Task][sb.Seq].Ctx}
+			if s.Shared {
+				k = sharedKey
+			}
 			if sb.Panic != nil {
 				o.violate("log-call-panic", "C10/log-call-panic/"+sb.PanicAt, "log call %s panicked: %v", sb.ID, sb.Panic)
 				continue
@@ -319,9 +351,14 @@ func (c c10) Run(x *Exec, scn any) {
 						"%s: %s (level %s, logger range %q, enabled=%v) invoked the %s %d times, expected %d", sb.ID, ep, sb.Level, s.Level, enabled, what, n, exp)
 				}
 			}
-			check(s.TimeHook, hooks.timeCalls[k], "time-hook")
-			check(s.StrHook, hooks.strCalls[k], "context-string-hook")
-			check(s.FldHook, hooks.fldCalls[k], "context-fields-hook")
+			if s.Shared {
+				// one context for all calls: the hooks are counted over all of them (below)
+				sharedEnabled += want
+			} else {
+				check(s.TimeHook, hooks.timeCalls[k], "time-hook")
+				check(s.StrHook, hooks.strCalls[k], "context-string-hook")
+				check(s.FldHook, hooks.fldCalls[k], "context-fields-hook")
+			}
 			if c.kind == 5 || c.kind == 6 {
 				check(true, hooks.genCalls[k], "lazy-generator")
 			}
